@@ -4,10 +4,10 @@ From CFDP Require Import Base Fs Crc Checksum Handler Dest Source HandlerSpec So
 From RecordUpdate Require Import RecordSet.
 Import RecordSetNotations.
 
-Arguments Z.add : simpl never. Arguments Z.sub : simpl never. Arguments Z.mul : simpl never.
-Arguments Z.pow : simpl never. Arguments Z.div : simpl never. Arguments Z.ltb : simpl never.
-Arguments Z.leb : simpl never. Arguments Z.eqb : simpl never. Arguments Z.min : simpl never.
-Arguments Z.max : simpl never. Arguments Z.of_nat : simpl never. Arguments Z.to_nat : simpl never.
+Local Arguments Z.add : simpl never. Local Arguments Z.sub : simpl never. Local Arguments Z.mul : simpl never.
+Local Arguments Z.pow : simpl never. Local Arguments Z.div : simpl never. Local Arguments Z.ltb : simpl never.
+Local Arguments Z.leb : simpl never. Local Arguments Z.eqb : simpl never. Local Arguments Z.min : simpl never.
+Local Arguments Z.max : simpl never. Local Arguments Z.of_nat : simpl never. Local Arguments Z.to_nat : simpl never.
 
 (* same body as props/C08.v enqueue *)
 Definition enqueue (ps : list pdu) (s : src) : src :=
